@@ -26,9 +26,9 @@ T = {
          "all small radicands x scales x p x 7 modes plus perfect-square/tie/long-input alphabets; the oracle certifies floor-root, exactness and midpoint position with exact integers"),
  "C11": ("bounded-exhaustive enumeration of (radicand, precision, mode, sign) against a certified integer cube root, incl. model-located delicate roundings; default and non-default build configuration",
          "as C10 for cube roots, both signs, all scale residues mod 3"),
- "C12": ("bounded-exhaustive enumeration of (x, precision, mode) against exact cross-multiplication, sign symmetry and a termination watchdog, in the std and the no_std build of the subject",
+ "C12": ("bounded-exhaustive enumeration of (x, precision, mode) against exact cross-multiplication, sign symmetry and a termination watchdog, in the std build, the no_std build and a non-default build configuration of the subject",
          "all small x, 2^i5^j, bit-length alphabet and long operands x p x 7 modes"),
- "C13": ("exhaustive enumeration of an argument grid against an outward-rounded interval enclosure of e^x",
+ "C13": ("exhaustive enumeration of an argument grid (incl. every argument length) against an outward-rounded interval enclosure of e^x, in the default and a non-default build configuration",
          "every argument of the stated grid; result compared with a rigorous enclosure"),
  "C14": ("exhaustive enumeration of float bit patterns (all 2^32 f32 in the thorough tier) against the exact binary value, in the std and the no_std build of the subject",
          "every exponent field x mantissa alphabet (quick) / every f32 (thorough); decimals x exponents for to_f64"),
@@ -36,7 +36,7 @@ T = {
          "every type limit +- small offsets in every exact representation, small-scope grid, constructors"),
  "C16": ("bounded-exhaustive enumeration of (decimal, precision, format spec) re-read by the model's numeral recogniser; every fault point of a failing output sink enumerated (deviation bound 1); default and non-default build configuration",
          "all small-scope decimals x N x format kinds, padding-limit alphabet, and every flag combination"),
- "C17": ("bounded-exhaustive enumeration of decimals / JSON documents / token streams (incl. in-place refills over previous occupants) through serde against the model denotation, in the default and the string-only build of the subject",
+ "C17": ("bounded-exhaustive enumeration of decimals / JSON documents / token streams (incl. in-place refills over previous occupants) through serde against the model denotation, in the default build, the string-only build and a non-default build configuration (scale limit 2000) of the subject",
          "round trips for every decimal of the product, every short JSON document over the numeric alphabet, every integer/float token width"),
  "C18": ("exhaustive enumeration of 10^k, 10^k+-1 for k<=5000 and a small-scope product x every accessor",
          "stored pair returned verbatim, digit counts equal string lengths, normalized form canonical"),
